@@ -267,8 +267,165 @@ def rule_chr(c: Ctx) -> RuleResult:
             r.add(key, c.where(f, call), f.short, U(call), "violation",
                   f"`{U(arg)}` reaches chr() without a dominating isValidEntityCode test and is not the ordinal of an existing "
                   f"character: a numeric reference above 0x10FFFF raises ValueError")
+    _valid_code_predicate(c, r)
     r.floor = 6
     return r
+
+
+# ---- the validity predicate itself, decided over the interval domain -----------------------------------------------------
+def _valid_code_predicate(c: Ctx, r: RuleResult) -> None:
+    """isValidEntityCode(c) must be False for every surrogate (U+D800..U+DFFF) and for every c > 0x10FFFF: the two classes for
+    which chr(c) raises or yields text that cannot be encoded.  The function is evaluated over *intervals* (the integer line is
+    cut at every constant the function and its tables mention; on each piece every comparison has a definite value; operations
+    the interval domain cannot follow - bit masks - evaluate to "either"), so the verdict covers all integers, not samples."""
+    f = c.p.func("common/utils.py:isValidEntityCode")
+    if len(f.node.args.args) != 1:
+        raise AnchorError("isValidEntityCode no longer takes one argument")
+    pname = f.node.args.args[0].arg
+    # constants: in the body and in module-level tables the body names
+    consts: set[int] = set()
+    tables: dict[str, list[ast.AST]] = {}
+    for x in ast.walk(f.node):
+        if isinstance(x, ast.Constant) and isinstance(x.value, int) and not isinstance(x.value, bool):
+            consts.add(x.value)
+        elif isinstance(x, ast.Name) and x.id != pname:
+            d = f.module.defs.get(x.id)
+            v = getattr(d, "value", None)
+            if isinstance(v, (ast.Tuple, ast.List, ast.Set)):
+                tables[x.id] = list(v.elts)
+                for y in ast.walk(v):
+                    if isinstance(y, ast.Constant) and isinstance(y.value, int) and not isinstance(y.value, bool):
+                        consts.add(y.value)
+    cuts = sorted(consts | {0xD800, 0xE000, 0x110000})
+    INF = 1 << 40
+
+    def atoms(lo: int, hi: int) -> list[tuple[int, int]]:
+        pts = sorted({lo, hi + 1} | {k for k in cuts if lo < k <= hi} | {k + 1 for k in cuts if lo < k + 1 <= hi})
+        return [(a, b - 1) for a, b in zip(pts, pts[1:])]
+
+    T, F, B = frozenset({True}), frozenset({False}), frozenset({True, False})
+
+    def ival(e: ast.AST, iv: tuple[int, int]):
+        """interval of an int expression, or None (unknown)"""
+        if isinstance(e, ast.Name) and e.id == pname:
+            return iv
+        if isinstance(e, ast.Constant) and isinstance(e.value, int) and not isinstance(e.value, bool):
+            return (e.value, e.value)
+        if isinstance(e, ast.BinOp) and isinstance(e.op, (ast.Add, ast.Sub)):
+            a, b = ival(e.left, iv), ival(e.right, iv)
+            if a and b:
+                return (a[0] + b[0], a[1] + b[1]) if isinstance(e.op, ast.Add) else (a[0] - b[1], a[1] - b[0])
+        return None
+
+    def rng(e: ast.AST):
+        """(lo, hi) inclusive of a `range(a, b)` display / (a, b) pair used as a block, or None"""
+        if isinstance(e, ast.Call) and isinstance(e.func, ast.Name) and e.func.id == "range" and 1 <= len(e.args) <= 2 \
+                and all(isinstance(a, ast.Constant) and isinstance(a.value, int) for a in e.args):
+            a = [x.value for x in e.args]          # type: ignore[attr-defined]
+            return (0, a[0] - 1) if len(a) == 1 else (a[0], a[1] - 1)
+        return None
+
+    def bval(e: ast.AST, iv: tuple[int, int], env: dict[str, ast.AST]) -> frozenset:
+        if isinstance(e, ast.Constant) and isinstance(e.value, bool):
+            return T if e.value else F
+        if isinstance(e, ast.UnaryOp) and isinstance(e.op, ast.Not):
+            return frozenset(not v for v in bval(e.operand, iv, env))
+        if isinstance(e, ast.BoolOp):
+            vals = [bval(v, iv, env) for v in e.values]
+            if isinstance(e.op, ast.And):
+                if any(v == F for v in vals):
+                    return F
+                return T if all(v == T for v in vals) else B
+            if any(v == T for v in vals):
+                return T
+            return F if all(v == F for v in vals) else B
+        if isinstance(e, ast.Compare):
+            left = e.left
+            acc = T
+            for op, right in zip(e.ops, e.comparators):
+                one = B
+                if isinstance(op, (ast.In, ast.NotIn)):
+                    a = ival(left, iv)
+                    blk = rng(env.get(right.id, right) if isinstance(right, ast.Name) else right)
+                    if a and blk:
+                        if blk[0] <= a[0] and a[1] <= blk[1]:
+                            one = T
+                        elif a[1] < blk[0] or a[0] > blk[1]:
+                            one = F
+                    elif a and isinstance(right, (ast.Tuple, ast.List, ast.Set)) and all(isinstance(x, ast.Constant) for x in right.elts):
+                        vs = {x.value for x in right.elts}          # type: ignore[attr-defined]
+                        if a[0] == a[1]:
+                            one = T if a[0] in vs else F
+                        elif not any(a[0] <= v <= a[1] for v in vs if isinstance(v, int)):
+                            one = F
+                    if isinstance(op, ast.NotIn):
+                        one = frozenset(not v for v in one)
+                else:
+                    a, b = ival(left, iv), ival(right, iv)
+                    if a and b:
+                        if isinstance(op, ast.Lt):
+                            one = T if a[1] < b[0] else F if a[0] >= b[1] else B
+                        elif isinstance(op, ast.LtE):
+                            one = T if a[1] <= b[0] else F if a[0] > b[1] else B
+                        elif isinstance(op, ast.Gt):
+                            one = T if a[0] > b[1] else F if a[1] <= b[0] else B
+                        elif isinstance(op, ast.GtE):
+                            one = T if a[0] >= b[1] else F if a[1] < b[0] else B
+                        elif isinstance(op, ast.Eq):
+                            one = T if a[0] == a[1] == b[0] == b[1] else F if a[1] < b[0] or a[0] > b[1] else B
+                        elif isinstance(op, ast.NotEq):
+                            one = F if a[0] == a[1] == b[0] == b[1] else T if a[1] < b[0] or a[0] > b[1] else B
+                if one == F:
+                    return F
+                if one == B:
+                    acc = B
+                left = right
+            return acc
+        if isinstance(e, ast.Call) and isinstance(e.func, ast.Name) and e.func.id in ("any", "all") and len(e.args) == 1 \
+                and isinstance(e.args[0], ast.GeneratorExp) and len(e.args[0].generators) == 1:
+            g = e.args[0].generators[0]
+            it = g.iter
+            elts = tables.get(it.id) if isinstance(it, ast.Name) else list(it.elts) if isinstance(it, (ast.Tuple, ast.List)) else None
+            if elts is not None and isinstance(g.target, ast.Name) and not g.ifs:
+                vals = [bval(e.args[0].elt, iv, {**env, g.target.id: x}) for x in elts]
+                if e.func.id == "any":
+                    return T if any(v == T for v in vals) else F if all(v == F for v in vals) else B
+                return F if any(v == F for v in vals) else T if all(v == T for v in vals) else B
+        return B
+
+    def run(stmts: list[ast.stmt], iv: tuple[int, int]) -> frozenset:
+        """possible return values of the statement list on c in iv (None in the set = falls through)"""
+        out: set = set()
+        for s_ in stmts:
+            if isinstance(s_, ast.Return):
+                out |= set(bval(s_.value, iv, {})) if s_.value is not None else {None}
+                return frozenset(out)
+            if isinstance(s_, ast.If):
+                tv = bval(s_.test, iv, {})
+                res_b = run(s_.body, iv) if True in tv else frozenset()
+                res_o = run(s_.orelse, iv) if False in tv else frozenset()
+                both = set(res_b) | set(res_o)
+                falls = (True in tv and None in res_b) or (False in tv and (None in res_o or not s_.orelse))
+                out |= {v for v in both if v is not None}
+                if not falls:
+                    return frozenset(out)
+                continue
+            if isinstance(s_, ast.Expr) and isinstance(s_.value, ast.Constant):
+                continue
+            return frozenset(out | {True, False})          # a statement the evaluator does not model: anything may happen
+        return frozenset(out | {None})
+
+    for (name, lo, hi, why) in (("surrogates", 0xD800, 0xDFFF, "chr() of it yields a lone surrogate: text that cannot be encoded (the command line's print raises)"),
+                                ("above U+10FFFF", 0x110000, INF, "chr() of it raises ValueError")):
+        bad = []
+        for a in atoms(lo, hi):
+            res_ = run(f.node.body, a)
+            if res_ != F:
+                bad.append(a)
+        r.add(f"isValidEntityCode|{name}", c.where(f, f.node), f.short, f"c in [{lo:#x}, {'inf' if hi == INF else format(hi, '#x')}]",
+              "violation" if bad else "discharged",
+              (f"isValidEntityCode can return True for c in " + ", ".join(f"[{a:#x}, {'inf' if b >= INF else format(b, '#x')}]" for a, b in bad[:3]) + f": {why}") if bad else
+              f"False on every piece of the range (interval evaluation over {len(atoms(lo, hi))} pieces cut at the function's constants)")
 
 
 class _ValidCodes(Problem):
